@@ -19,6 +19,7 @@ What the rules built on this decide is stated in rules/c03.py (R3.10-R3.12).
 """
 from fractions import Fraction
 import itertools
+import re
 
 import facts as F
 import ir
@@ -161,6 +162,8 @@ class Ctx:
 
 
 UINT = ("usize", "u8", "u16", "u32", "u64", "u128")
+UMAX = {"u8": 255, "u16": 65535, "u32": 2 ** 32 - 1}
+LEN_MAX = 2 ** 63 - 1       # slices never exceed isize::MAX bytes
 ASSERT_MACROS = ("debug_assert", "debug_assert_eq", "debug_assert_ne", "debug_assert_invars", "debug_assert_matches")
 
 
@@ -168,9 +171,17 @@ def in_debug_assert(sp):
     return any(m.split("::")[-1] in ASSERT_MACROS for m in (sp or {}).get("m", []))
 
 
+def ty_str(t):
+    return t.get("s", "") if isinstance(t, dict) else (t or "")
+
+
+def is_byte_slice_ref(s):
+    return s.startswith("&") and s.replace("mut ", "").replace("'a ", "").replace("'_ ", "").strip("& ") == "[u8]"
+
+
 class Obligation:
-    def __init__(self, kind, text, loc, ok, path):
-        self.kind, self.text, self.loc, self.ok, self.path = kind, text, loc, ok, path
+    def __init__(self, kind, text, loc, ok, path, fn=None):
+        self.kind, self.text, self.loc, self.ok, self.path, self.fn = kind, text, loc, ok, path, fn
 
 
 class PathEnd:
@@ -179,10 +190,12 @@ class PathEnd:
 
 
 class Interp:
-    """Interprets `body` (a method taking `self` by reference) from an entry state in which every cursor field
-    holds its own symbol and the chain invariant holds."""
+    """Interprets a function's MIR along each path.  `self` (argument 1) may be a struct with cursor fields:
+    then every cursor field starts as its own symbol and the chain invariant 0 <= c1 <= ... <= cn <= len(len_of)
+    is assumed at entry, re-established (checked) and re-assumed at every loop head, and checked by the caller
+    of run() at the returns."""
 
-    def __init__(self, facts, cursors, len_of=None, inline=(), max_paths=4000, track=None, self_ty=None):
+    def __init__(self, facts, cursors=(), len_of=None, inline=(), max_paths=6000, track=None, contracts=None):
         self.facts = facts
         self.cursors = list(cursors)            # field names, in chain order
         self.len_of = len_of                    # field whose len() bounds the chain
@@ -193,61 +206,124 @@ class Interp:
         self.ends = []
         self.npaths = 0
         self.track = track or {}                # region name -> (start field, end field)
-        self.self_ty = self_ty
         self.init_regions = None
+        self.contracts = contracts or {}        # callee name -> function(interp, st, args, dest_ty) -> value
+        self._loops = {}
+        self.self_is_struct = True
+        self.stats = {"paths": 0, "loop_heads": 0, "inlined": 0, "contract_uses": {}}
 
     # -- entry state ------------------------------------------------------------------------------
+    def chain(self, ctx, syms):
+        prev = Lin(0)
+        for f, s in zip(self.cursors, syms):
+            ctx.nonneg.add(s)
+            ctx.add(Lin.sym(s) - prev)
+            prev = Lin.sym(s)
+        if self.len_of:
+            L = "len(%s)" % self.len_of
+            ctx.nonneg.add(L)
+            ctx.add(Lin.sym(L) - prev)
+            ctx.add(Lin(LEN_MAX) - Lin.sym(L))
+
     def entry(self):
         ctx = Ctx()
-        prev = Lin(0)
-        for f in self.cursors:
-            ctx.nonneg.add(f)
-            ctx.add(Lin.sym(f) - prev)
-            prev = Lin.sym(f)
-        if self.len_of:
-            ctx.nonneg.add("len(%s)" % self.len_of)
-            ctx.add(Lin.sym("len(%s)" % self.len_of) - prev)
+        self.chain(ctx, self.cursors)
         heap = {f: Lin.sym(f) for f in self.cursors}
         regions = {name: (Lin.sym(a), Lin.sym(b)) for name, (a, b) in self.track.items()}
         return ctx, heap, regions
 
-    def new_sym(self, hint, ctx, nonneg=True):
+    def chain_holds(self, ctx, heap):
+        prev = Lin(0)
+        for f in self.cursors:
+            v = heap.get(f)
+            if not isinstance(v, Lin) or not ctx.le(prev, v):
+                return False
+            prev = v
+        if self.len_of:
+            return ctx.le(prev, Lin.sym("len(%s)" % self.len_of))
+        return True
+
+    def new_sym(self, hint, ctx, ty="usize"):
         s = "%s#%d" % (hint, next(self.fresh))
-        if nonneg:
-            ctx.nonneg.add(s)
+        ctx.nonneg.add(s)
+        if ty in UMAX:
+            ctx.add(Lin(UMAX[ty]) - Lin.sym(s))
+        return Lin.sym(s)
+
+    def new_len(self, hint, ctx):
+        s = "%s#%d" % (hint, next(self.fresh))
+        ctx.nonneg.add(s)
+        ctx.add(Lin(LEN_MAX) - Lin.sym(s))
         return Lin.sym(s)
 
     # -- values --------------------------------------------------------------------------------------
-    # Lin | ('self',) | ('fieldref', name) | ('cmp', op, Lin, Lin) | ('bool', 0/1) | ('range', lo, hi|None) |
-    # ('pair', Lin, ('bool', ..)) | ('tuple', [...]) | ('opaque', id)
+    # Lin | ('self',) | ('fieldref', name) | ('slice', len) | ('cmp', op, Lin, Lin) | ('bool', 0/1) |
+    # ('range', lo, hi|None) | ('pair', a, b) | ('tuple', [...]) | ('some', v) | ('none',) | ('ok', v) |
+    # ('nvit', len) | ('array', n) | ('opaque', id)
     def opaque(self):
         return ('opaque', next(self.fresh))
+
+    def fresh_for(self, ty, ctx, hint="v"):
+        ty = ty_str(ty)
+        if ty in UINT:
+            return self.new_sym(hint, ctx, ty)
+        if ty == "bool":
+            return self.opaque()
+        if is_byte_slice_ref(ty):
+            return ('slice', self.new_len("len(%s)" % hint, ctx))
+        return self.opaque()
+
+    def slice_len(self, v, ctx):
+        if isinstance(v, tuple) and v[0] == 'slice':
+            return v[1]
+        if isinstance(v, tuple) and v[0] == 'fieldref' and v[1] == self.len_of:
+            return Lin.sym("len(%s)" % self.len_of)
+        if isinstance(v, tuple) and v[0] == 'array':
+            return Lin(v[1])
+        return None
+
+    def place_ty(self, body, p):
+        proj = p.get("p", [])
+        for el in reversed(proj):
+            if "ty" in el:
+                return ty_str(el["ty"])
+            if "deref" in el:
+                continue
+            return ""
+        t = ty_str(body.locals[p["l"]]["ty"])
+        if proj:    # only derefs
+            return t.lstrip("&").replace("mut ", "", 1).strip() if t.startswith("&") else ""
+        return t
+
+    def operand_ty(self, body, o):
+        if "copy" in o or "move" in o:
+            return self.place_ty(body, o.get("copy") or o.get("move"))
+        if "const" in o:
+            return ty_str(o["const"].get("ty", ""))
+        return ""
 
     def load_place(self, st, p):
         body, env, heap, ctx = st["body"], st["env"], st["heap"], st["ctx"]
         v = env.get(p["l"])
         if v is None:
-            v = self.opaque()
+            v = self.fresh_for(body.locals[p["l"]]["ty"], ctx, body.varnames.get(p["l"], "_%d" % p["l"]))
+            env[p["l"]] = v
         proj = p.get("p", [])
-        i = 0
-        while i < len(proj):
-            el = proj[i]
+        for el in proj:
             if "deref" in el:
-                i += 1
+                if isinstance(v, tuple) and v[0] == 'fieldref' and isinstance(heap.get(v[1]), Lin):
+                    v = heap[v[1]]
                 continue
             if "variant" in el:
-                i += 1
                 continue            # (x as Some): the payload is projected by the following field element
             if "f" in el:
                 name = el.get("n", el["f"])
-                if isinstance(v, tuple) and v[0] == 'some' and el["f"] == 0:
+                if isinstance(v, tuple) and v[0] in ('some', 'ok') and el["f"] == 0:
                     v = v[1]
-                    i += 1
-                    continue
-                if v == ('self',):
+                elif v == ('self',):
                     if name not in heap:
-                        ty = el.get("ty", "")
-                        heap[name] = self.new_sym(str(name), ctx) if ty in UINT else ('fieldref', name)
+                        ty = ty_str(el.get("ty", ""))
+                        heap[name] = self.new_sym(str(name), ctx, ty) if ty in UINT else ('fieldref', name)
                     v = heap[name]
                 elif isinstance(v, tuple) and v[0] == 'pair':
                     v = v[1] if el["f"] == 0 else v[2]
@@ -256,10 +332,9 @@ class Interp:
                 elif isinstance(v, tuple) and v[0] == 'range':
                     v = v[1] if name in ("start", 0) else v[2]
                 else:
-                    v = self.opaque()
+                    v = self.fresh_for(el.get("ty", ""), ctx, str(name))
             else:
                 v = self.opaque()
-            i += 1
         return v
 
     def operand(self, st, o):
@@ -268,16 +343,23 @@ class Interp:
         if "const" in o:
             c = ir.const_expr(o["const"])
             v = ir.const_value(c)
-            ty = o["const"].get("ty", "")
+            ty = ty_str(o["const"].get("ty", ""))
             if isinstance(v, int):
                 if ty == "bool":
                     return ('bool', v)
                 return Lin(v)
+            m = re.match(r"&(?:'\w+ )?(?:mut )?\[u8; (\d+)\]$", ty)
+            if m:
+                return ('array', int(m.group(1)))       # a (promoted) constant array, e.g. `&mut []`
         return self.opaque()
+
+    def oblige(self, st, kind, text, ok, sp=None):
+        self.obligations.append(Obligation(kind, text, st["body"].loc(sp or st["sp"]), ok, list(st["trace"]), st["body"].npath))
 
     def rvalue(self, st, r, ty):
         k = r["k"]
         ctx = st["ctx"]
+        body = st["body"]
         if k == "use":
             return self.operand(st, r["op"])
         if k in ("ref", "rawptr"):
@@ -289,44 +371,70 @@ class Interp:
             if base == ('self',) and len(proj) == 1 and "f" in proj[0]:
                 return ('fieldref', proj[0].get("n", proj[0]["f"]))
             v = self.load_place(st, p)
-            return v if isinstance(v, tuple) and v[0] in ('fieldref', 'self') else self.opaque()
+            if isinstance(v, tuple) and v[0] in ('fieldref', 'self', 'slice', 'array', 'nvit', 'some', 'none'):
+                return v
+            if isinstance(v, Lin):
+                return v            # &usize: read-only views of integers are modelled by value
+            return self.opaque()
         if k == "cast":
             v = self.operand(st, r["op"])
-            return v if isinstance(v, Lin) and r.get("ty") in UINT else (v if isinstance(v, Lin) else self.opaque())
+            tty = ty_str(r.get("ty", ""))
+            if isinstance(v, Lin) and tty in UINT:
+                sty = self.operand_ty(body, r["op"])
+                if tty in UMAX and not (sty in UMAX and UMAX[sty] <= UMAX[tty]):
+                    ok = ctx.le(v, UMAX[tty])
+                    self.oblige(st, "cast", "%s fits into %s (narrowing `as` cast)" % (v, tty), ok, r.get("sp"))
+                return v
+            if isinstance(v, tuple) and v[0] in ('array', 'slice') and "[u8]" in tty:
+                L = self.slice_len(v, ctx)
+                return ('slice', L)
+            if isinstance(v, tuple) and v[0] in ('fieldref', 'self', 'slice'):
+                return v
+            if tty in UINT:
+                return self.new_sym("cast", ctx, tty)
+            return self.opaque()
         if k == "bin":
             a, b = self.operand(st, r["a"]), self.operand(st, r["b"])
             op = r["op"]
+            base = op[:-len("WithOverflow")] if op.endswith("WithOverflow") else op
+            wo = op.endswith("WithOverflow")
+            rty = ty if not wo else self.operand_ty(body, r["a"])
             if isinstance(a, Lin) and isinstance(b, Lin):
-                base = op[:-len("WithOverflow")] if op.endswith("WithOverflow") else op
                 res = None
                 if base == "Add":
                     res = a + b
+                    if rty in UMAX:
+                        self.oblige(st, "add", "%s + %s fits into %s" % (a, b, rty), ctx.le(res, UMAX[rty]), r.get("sp"))
                 elif base == "Sub":
                     res = a - b
-                    ok = ctx.ge0(res)
-                    self.obligations.append(Obligation("sub", "%s - %s cannot underflow" % (a, b), st["body"].loc(r.get("sp") or st["sp"]), ok, list(st["trace"])))
+                    self.oblige(st, "sub", "%s - %s cannot underflow" % (a, b), ctx.ge0(res), r.get("sp"))
                 elif base == "Mul" and (a.is_const() or b.is_const()):
                     res = b.scale(a.c) if a.is_const() else a.scale(b.c)
                 elif base in ("Lt", "Le", "Gt", "Ge", "Eq", "Ne"):
                     return ('cmp', base, a, b)
                 if res is not None:
-                    return ('pair', res, ('bool', 0)) if op.endswith("WithOverflow") else res
-            if ty in UINT:
-                return self.new_sym("v", ctx)
-            return self.opaque()
+                    return ('pair', res, ('bool', 0)) if wo else res
+            if wo:
+                return ('pair', self.fresh_for(rty, ctx), ('bool', 0))
+            return self.fresh_for(ty, ctx)
         if k == "agg":
             ops = [self.operand(st, o) for o in r["ops"]]
             if r["ak"] == "adt":
                 adt = F.norm(r["adt"])
+                vn = r.get("vn", "")
                 if adt.endswith("ops::Range") and len(ops) == 2:
                     return ('range', ops[0], ops[1])
                 if adt.endswith("ops::RangeFrom") and len(ops) == 1:
                     return ('range', ops[0], None)
                 if adt.endswith("ops::RangeTo") and len(ops) == 1:
                     return ('range', Lin(0), ops[0])
+                if adt.endswith("option::Option"):
+                    return ('some', ops[0]) if vn == "Some" and ops else ('none',)
                 return self.opaque()
             if r["ak"] == "tuple":
                 return ('tuple', ops)
+            if r["ak"] == "array":
+                return ('array', len(ops))
             return self.opaque()
         if k == "discr":
             v = self.load_place(st, r["place"])
@@ -335,27 +443,33 @@ class Interp:
             if v == ('none',):
                 return Lin(0)
             return self.opaque()
-        if k == "un" and r["op"] == "Not":
+        if k == "un":
             v = self.operand(st, r["a"])
-            if isinstance(v, tuple) and v[0] == 'cmp':
-                neg = {"Lt": "Ge", "Le": "Gt", "Gt": "Le", "Ge": "Lt", "Eq": "Ne", "Ne": "Eq"}
-                return ('cmp', neg[v[1]], v[2], v[3])
-            if isinstance(v, tuple) and v[0] == 'bool':
-                return ('bool', 1 - v[1])
-        if ty in UINT:
-            return self.new_sym("v", ctx)
-        return self.opaque()
+            if r["op"] == "Not":
+                if isinstance(v, tuple) and v[0] == 'cmp':
+                    neg = {"Lt": "Ge", "Le": "Gt", "Gt": "Le", "Ge": "Lt", "Eq": "Ne", "Ne": "Eq"}
+                    return ('cmp', neg[v[1]], v[2], v[3])
+                if isinstance(v, tuple) and v[0] == 'bool':
+                    return ('bool', 1 - v[1])
+            if r["op"] == "PtrMetadata":
+                L = self.slice_len(v, ctx)
+                if L is not None:
+                    return L
+        return self.fresh_for(ty, ctx)
 
     def store(self, st, p, v):
         proj = [e for e in p.get("p", []) if "deref" not in e]
+        base = st["env"].get(p["l"])
+        if not proj and p.get("p") and isinstance(base, tuple) and base[0] == 'fieldref':
+            st["heap"][base[1]] = v         # *(&mut self.field) = v
+            return
         if not proj:
             st["env"][p["l"]] = v
             return
-        base = st["env"].get(p["l"])
         if base == ('self',) and len(proj) == 1 and "f" in proj[0]:
             st["heap"][proj[0].get("n", proj[0]["f"])] = v
             return
-        # a write through something we do not model: forget nothing about cursors (they are only reachable via self)
+        # a write through something not modelled: cursors are only reachable through `self` or a `&mut self.field`
 
     # -- constraints from a comparison taken / not taken -------------------------------------------
     @staticmethod
@@ -375,19 +489,86 @@ class Interp:
             return [[a - b, b - a]]
         return [[a - b - 1], [b - a - 1]]
 
+    # -- loops ------------------------------------------------------------------------------------------
+    def loop_info(self, body):
+        k = id(body)
+        if k in self._loops:
+            return self._loops[k]
+        n = len(body.blocks)
+        succ = {b: body.succs(b) for b in range(n)}
+        # Tarjan SCC
+        index, low, onst, stack, sccs, cnt = {}, {}, set(), [], [], [0]
+        import sys
+        sys.setrecursionlimit(10000)
+
+        def sc(v):
+            index[v] = low[v] = cnt[0]
+            cnt[0] += 1
+            stack.append(v)
+            onst.add(v)
+            for w in succ[v]:
+                if w not in index:
+                    sc(w)
+                    low[v] = min(low[v], low[w])
+                elif w in onst:
+                    low[v] = min(low[v], index[w])
+            if low[v] == index[v]:
+                comp = []
+                while True:
+                    w = stack.pop()
+                    onst.discard(w)
+                    comp.append(w)
+                    if w == v:
+                        break
+                sccs.append(comp)
+        sc(0)
+        heads = {}
+        for comp in sccs:
+            cs = set(comp)
+            if len(comp) == 1 and comp[0] not in succ[comp[0]]:
+                continue
+            # heads: blocks of the component entered from outside
+            hs = {b for b in comp for a in range(n) if a not in cs and a in index and b in succ[a]}
+            if 0 in cs:
+                hs.add(0)
+            assigned = set()
+            for b in comp:
+                for s_ in body.blocks[b]["st"]:
+                    if s_["k"] == "assign":
+                        assigned.add(s_["place"]["l"])
+                t = body.blocks[b]["t"]
+                if t["k"] == "call" and "dest" in t:
+                    assigned.add(t["dest"]["l"])
+            for h in hs:
+                heads[h] = assigned
+        self._loops[k] = heads
+        return heads
+
     # -- exploration ----------------------------------------------------------------------------------
-    def run(self, body):
+    def run(self, body, self_value=('self',)):
         ctx, heap, regions = self.entry()
-        env = {1: ('self',)}
-        for i in range(2, body.argc + 1):
-            ty = body.locals[i]["ty"].get("s", "") if isinstance(body.locals[i]["ty"], dict) else body.locals[i]["ty"]
-            env[i] = self.new_sym(body.varnames.get(i, "arg%d" % i), ctx) if ty in UINT else self.opaque()
+        env = {}
+        for i in range(1, body.argc + 1):
+            ty = ty_str(body.locals[i]["ty"])
+            name = body.varnames.get(i, "arg%d" % i)
+            if i == 1 and self_value is not None and name == "self":
+                env[i] = self_value
+            elif ty in UINT:
+                env[i] = self.new_sym(name, ctx, ty)
+            elif is_byte_slice_ref(ty):
+                env[i] = ('slice', self.new_len("len(%s)" % name, ctx))
+            elif ty == "bool":
+                env[i] = self.opaque()
+            else:
+                env[i] = self.opaque()
         self.args = [env[i] for i in range(2, body.argc + 1)]
+        self.arg_env = dict(env)
         if self.init_regions is not None:
             regions = self.init_regions(ctx, heap, env)
         st = {"body": body, "env": env, "heap": heap, "ctx": ctx, "regions": regions, "trace": [], "events": [], "sp": body.span,
               "stack": []}
         self._walk(st, 0, {})
+        self.stats["paths"] = self.npaths
         return self.ends
 
     def _clone(self, st):
@@ -396,8 +577,7 @@ class Interp:
                 "stack": [dict(fr, env=dict(fr["env"])) for fr in st["stack"]]}
 
     def _ty(self, body, l):
-        t = body.locals[l]["ty"]
-        return t.get("s", "") if isinstance(t, dict) else t
+        return ty_str(body.locals[l]["ty"])
 
     def _panics(self, body, bb, depth=0):
         """Does block bb unconditionally end in a panic (call without target / unreachable)?"""
@@ -415,41 +595,66 @@ class Interp:
     def _walk(self, st, bb, visits):
         body = st["body"]
         while True:
-            self.npaths += 0
             key = (id(body), bb)
+            heads = self.loop_info(body)
+            if bb in heads:
+                if self.cursors:
+                    self.oblige(st, "inv", "the cursor invariant holds at the loop head of %s" % body.npath.split("::")[-1],
+                                self.chain_holds(st["ctx"], st["heap"]), body.blocks[bb]["t"].get("sp"))
+                if visits.get(key, 0) >= 1:
+                    return          # back edge: the invariant was re-established (or reported); the head was explored from a generic state
+                self.stats["loop_heads"] += 1
+                # havoc: everything the loop may change is forgotten; the invariant is all that is known
+                syms = ["%s@%d" % (f, next(self.fresh)) for f in self.cursors]
+                self.chain(st["ctx"], syms)
+                st["heap"] = {f: Lin.sym(s) for f, s in zip(self.cursors, syms)}
+                st["regions"] = {}
+                for l in heads[bb]:
+                    if st["env"].get(l) != ('self',):
+                        st["env"].pop(l, None)
+                if st["stack"]:
+                    raise RuntimeError("loop inside an inlined callee: %s" % body.npath)
             visits = dict(visits)
             visits[key] = visits.get(key, 0) + 1
-            if visits[key] > 1:
-                # a loop: not handled by this interpreter
-                self.obligations.append(Obligation("loop", "loop in %s" % body.npath, body.loc(), False, list(st["trace"])))
+            if visits[key] > 1 and bb not in heads:
+                self.oblige(st, "loop", "unstructured loop in %s" % body.npath, False)
                 return
             blk = body.blocks[bb]
             for s in blk["st"]:
                 if s["k"] != "assign":
                     continue
-                if in_debug_assert(s.get("sp")):
-                    # values computed for a debug assertion are only read by it
-                    p = s["place"]
+                p = s["place"]
+                if in_debug_assert(s.get("sp")) or (s.get("sp") or {}).get("n"):
+                    # values computed for a debug assertion / log statement are only read there
                     if "p" not in p:
-                        v = self.rvalue_quiet(st, s)
-                        st["env"][p["l"]] = v
+                        st["env"][p["l"]] = self.rvalue_quiet(st, s)
                     continue
                 st["sp"] = s.get("sp") or st["sp"]
-                p = s["place"]
-                ty = self._ty(body, p["l"]) if "p" not in p else (p["p"][-1].get("ty", "") if p.get("p") else "")
+                ty = self.place_ty(body, p)
                 v = self.rvalue(st, s["rv"], ty)
                 self.store(st, p, v)
             t = blk["t"]
             k = t["k"]
             st["sp"] = t.get("sp") or st["sp"]
-            if k == "goto":
-                bb = t["target"]
-                continue
-            if k == "drop":
+            if k in ("goto", "drop"):
                 bb = t["target"]
                 continue
             if k == "assert":
-                # overflow / bounds checks inserted by the compiler: the obligation was recorded at the operation
+                msg = t.get("msg", "")
+                if msg.startswith("bounds") and not in_debug_assert(t.get("sp")):
+                    c = self.operand(st, t["cond"])
+                    ok = False
+                    if isinstance(c, tuple) and c[0] == 'cmp':
+                        alts = self.cmp_constraints(c[1], c[2], c[3], bool(t.get("expected", 1)))
+                        ok = len(alts) == 1 and all(st["ctx"].ge0(x) for x in alts[0])
+                        text = "index %s %s %s" % (c[2], c[1], c[3])
+                    elif isinstance(c, tuple) and c[0] == 'bool':
+                        ok = c[1] == int(bool(t.get("expected", 1)))
+                        text = "constant index in bounds"
+                    else:
+                        text = "index in bounds (operands are not linear forms)"
+                    self.oblige(st, "index", text, ok, t.get("sp"))
+                # overflow checks: the obligation was recorded at the operation itself
                 bb = t["target"]
                 continue
             if k == "return":
@@ -468,8 +673,11 @@ class Interp:
                 self.ends.append(PathEnd(st["ctx"], st["heap"], st["regions"], st["env"].get(0), st["trace"], st["events"], self.args))
                 return
             if k == "switch":
-                d = self.operand(st, t["discr"])
                 targets = [(int(v), tgt) for v, tgt in t["targets"]]
+                if (t.get("sp") or {}).get("n"):
+                    bb = targets[0][1] if targets else t["otherwise"]     # log statement: the disabled side
+                    continue
+                d = self.operand(st, t["discr"])
                 if in_debug_assert(t.get("sp")):
                     # follow the edge on which the assertion holds; its condition is NOT assumed
                     if isinstance(d, tuple) and d[0] == 'bool':
@@ -486,6 +694,7 @@ class Interp:
                 if isinstance(d, Lin) and d.is_const():
                     bb = dict(targets).get(int(d.c), t["otherwise"])
                     continue
+                where = "%s:%d" % (t["sp"]["f"].split("/")[-1], t["sp"]["l"]) if t.get("sp") else "?"
                 if isinstance(d, tuple) and d[0] == 'cmp' and t.get("dty") == "bool":
                     for val, tgt in targets + [(None, t["otherwise"])]:
                         taken = (val != 0) if val is not None else True
@@ -495,30 +704,30 @@ class Interp:
                                 s2["ctx"].add(c)
                             if not s2["ctx"].feasible():
                                 continue
-                            s2["trace"].append("%s:%d %s%s %s %s" % (t["sp"]["f"].split("/")[-1], t["sp"]["l"], "" if taken else "not ", d[2], d[1], d[3]))
+                            s2["trace"].append("%s %s%s %s %s" % (where, "" if taken else "not ", d[2], d[1], d[3]))
                             self._walk(s2, tgt, visits)
                     return
                 if isinstance(d, Lin):
-                    # switch on an integer value
                     others = []
                     for val, tgt in targets:
                         s2 = self._clone(st)
                         s2["ctx"].add(d - val)
                         s2["ctx"].add(Lin(val) - d)
                         if s2["ctx"].feasible():
-                            s2["trace"].append("%s:%d %s == %d" % (t["sp"]["f"].split("/")[-1], t["sp"]["l"], d, val))
+                            s2["trace"].append("%s %s == %d" % (where, d, val))
                             self._walk(s2, tgt, visits)
                         others.append(val)
-                    # otherwise: exclude the listed values when they form a prefix 0..n
                     s2 = self._clone(st)
                     if sorted(others) == list(range(len(others))):
                         s2["ctx"].add(d - len(others))
                     if s2["ctx"].feasible():
-                        s2["trace"].append("%s:%d %s not in %s" % (t["sp"]["f"].split("/")[-1], t["sp"]["l"], d, others))
+                        s2["trace"].append("%s %s not in %s" % (where, d, others))
                         self._walk(s2, t["otherwise"], visits)
                     return
-                for tgt in list(dict.fromkeys([tgt for _, tgt in targets] + [t["otherwise"]])):
-                    s2 = self._clone(st)
+                outs = list(dict.fromkeys([tgt for _, tgt in targets] + [t["otherwise"]]))
+                outs = [x for x in outs if body.blocks[x]["t"]["k"] != "unreachable"]
+                for tgt in outs:
+                    s2 = self._clone(st) if len(outs) > 1 else st
                     self._walk(s2, tgt, visits)
                 return
             if k == "call":
@@ -530,19 +739,19 @@ class Interp:
                     name = F.norm(f["path"])
                 if "target" not in t:
                     return      # diverges (panic): preconditions / unreachable
+                dty = self.place_ty(body, t["dest"])
                 if in_debug_assert(t.get("sp") or t.get("fsp")) or (t.get("sp") or {}).get("n"):
-                    self.store(st, t["dest"], self.opaque() if self._ty(body, t["dest"]["l"]) not in UINT else self.new_sym("a", st["ctx"]))
+                    self.store(st, t["dest"], self.fresh_for(dty, st["ctx"]))
                     bb = t["target"]
                     continue
                 args = [self.operand(st, a) for a in t["args"]]
-                dty = self._ty(body, t["dest"]["l"]) if "p" not in t["dest"] else ""
                 done = self.call(st, t, name, args, dty, visits)
                 if done == 'forked':
                     return
                 if done == 'inlined':
                     body = st["body"]
                     bb = 0
-                    visits = {}
+                    visits = dict(visits)
                     continue
                 bb = t["target"]
                 continue
@@ -556,65 +765,103 @@ class Interp:
         del self.obligations[n:]
         return v
 
+    def fork(self, st, t, visits, alts):
+        """alts: [(value for dest, [constraints], trace text)]"""
+        for (res, conds, text) in alts:
+            s2 = self._clone(st)
+            for c in conds:
+                s2["ctx"].add(c)
+            if not s2["ctx"].feasible():
+                continue
+            s2["trace"].append(text)
+            self.store(s2, t["dest"], res)
+            self._walk(s2, t["target"], visits)
+        return 'forked'
+
     def call(self, st, t, name, args, dty, visits):
         ctx = st["ctx"]
         body = st["body"]
         loc = body.loc(t.get("sp"))
-        short = (name or "").split("::")[-1]
-        if name and name.endswith("copy_within") and len(args) == 3:
+        where = loc.split("/")[-1]
+        name = name or ""
+        short = name.split("::")[-1]
+        if name in self.contracts:
+            self.stats["contract_uses"][name] = self.stats["contract_uses"].get(name, 0) + 1
+            r = self.contracts[name](self, st, args, dty)
+            if isinstance(r, list):
+                return self.fork(st, t, visits, r)
+            self.store(st, t["dest"], r)
+            return None
+        if name.endswith("copy_within") and len(args) == 3:
             rng, dest = args[1], args[2]
             if args[0] == ('fieldref', self.len_of) and isinstance(rng, tuple) and rng[0] == 'range' and isinstance(dest, Lin) \
                     and isinstance(rng[1], Lin) and isinstance(rng[2], Lin):
-                self.copy_within(st, rng[1], rng[2], dest, loc)
+                self.copy_within(st, rng[1], rng[2], dest, t.get("sp"))
             else:
-                self.obligations.append(Obligation("copy", "copy_within with operands that are not cursor forms", loc, False, list(st["trace"])))
+                self.oblige(st, "copy", "copy_within with operands that are not cursor forms", False, t.get("sp"))
             self.store(st, t["dest"], self.opaque())
             return None
         if short in ("min", "max") and len(args) == 2 and all(isinstance(a, Lin) for a in args) and (name.startswith("std::cmp::") or name.startswith("core::cmp::")):
             a, b = args
-            # fork: which operand is returned
-            for (res, cond) in (((a, b - a) if short == "min" else (a, a - b)), ((b, a - b) if short == "min" else (b, b - a))):
-                s2 = self._clone(st)
-                s2["ctx"].add(cond)
-                if not s2["ctx"].feasible():
-                    continue
-                s2["trace"].append("%s %s(%s, %s) = %s" % (loc.split("/")[-1], short, a, b, res))
-                self.store(s2, t["dest"], res)
-                self._walk(s2, t["target"], visits)
-            return 'forked'
+            if short == "min":
+                alts = [(a, [b - a], "%s min(%s, %s) = %s" % (where, a, b, a)), (b, [a - b - 1], "%s min(%s, %s) = %s" % (where, a, b, b))]
+            else:
+                alts = [(a, [a - b], "%s max(%s, %s) = %s" % (where, a, b, a)), (b, [b - a - 1], "%s max(%s, %s) = %s" % (where, a, b, b))]
+            return self.fork(st, t, visits, alts)
         if short in ("checked_sub", "checked_add") and len(args) == 2 and all(isinstance(a, Lin) for a in args):
             a, b = args
-            alts = ((('some', a - b), a - b), (('none',), b - a - 1)) if short == "checked_sub" else ((('some', a + b), Lin(0)),)
-            for (res, cond) in alts:
-                s2 = self._clone(st)
-                s2["ctx"].add(cond)
-                if not s2["ctx"].feasible():
-                    continue
-                s2["trace"].append("%s %s(%s, %s) is %s" % (loc.split("/")[-1], short, a, b, "Some" if res[0] == 'some' else "None"))
-                self.store(s2, t["dest"], res)
-                self._walk(s2, t["target"], visits)
-            return 'forked'
-        if short in ("expect", "unwrap") and args and isinstance(args[0], tuple) and args[0][0] in ('some', 'none'):
+            if short == "checked_sub":
+                alts = [(('some', a - b), [a - b], "%s checked_sub(%s, %s) is Some" % (where, a, b)),
+                        (('none',), [b - a - 1], "%s checked_sub(%s, %s) is None" % (where, a, b))]
+            else:
+                alts = [(('some', a + b), [], "%s checked_add(%s, %s) is Some" % (where, a, b))]
+                aty = self.operand_ty(body, t["args"][0])
+                if aty in UMAX:
+                    alts = [(('some', a + b), [Lin(UMAX[aty]) - (a + b)], alts[0][2]), (('none',), [(a + b) - UMAX[aty] - 1], "%s checked_add overflows" % where)]
+            return self.fork(st, t, visits, alts)
+        if short in ("expect", "unwrap") and args and isinstance(args[0], tuple) and args[0][0] in ('some', 'none', 'ok'):
             if args[0][0] == 'none':
                 return 'forked'     # diverges
             self.store(st, t["dest"], args[0][1])
             return None
-        if short == "len" and len(args) == 1 and isinstance(args[0], tuple) and args[0][0] == 'fieldref':
-            s = "len(%s)" % args[0][1]
-            ctx.nonneg.add(s)
-            self.store(st, t["dest"], Lin.sym(s))
+        if short in ("from", "into") and len(args) == 1 and isinstance(args[0], Lin) and (name.startswith("std::convert::num::") or "Into" in name or "From" in name) and dty in UINT:
+            # lossless integer conversion (From is only implemented for widenings)
+            self.store(st, t["dest"], args[0])
             return None
-        if name and (name.endswith("Index>::index") or name.endswith("IndexMut>::index_mut") or name.endswith("::index") or name.endswith("::index_mut")) \
-                and len(args) == 2 and args[0] == ('fieldref', self.len_of) and isinstance(args[1], tuple) and args[1][0] == 'range':
+        L0 = self.slice_len(args[0], ctx) if args else None
+        if short == "len" and len(args) == 1:
+            if L0 is not None:
+                self.store(st, t["dest"], L0)
+                return None
+            if isinstance(args[0], tuple) and args[0][0] == 'fieldref':
+                # a growable container: its length is only known to be a length (a fresh symbol per call)
+                self.store(st, t["dest"], self.new_len("len(%s)" % args[0][1], ctx))
+                return None
+        if short == "is_empty" and len(args) == 1 and L0 is not None:
+            self.store(st, t["dest"], ('cmp', 'Eq', L0, Lin(0)))
+            return None
+        if (short in ("index", "index_mut") or name.endswith("::get") or name.endswith("::get_mut")) and len(args) == 2 and L0 is not None \
+                and isinstance(args[1], tuple) and args[1][0] == 'range':
             lo, hi = args[1][1], args[1][2]
-            L = Lin.sym("len(%s)" % self.len_of)
             if isinstance(lo, Lin) and (hi is None or isinstance(hi, Lin)):
-                ok = ctx.ge0(lo) and (ctx.le(lo, hi) and ctx.le(hi, L) if hi is not None else ctx.le(lo, L))
-                self.obligations.append(Obligation("slice", "%s[%s..%s] is in bounds" % (self.len_of, lo, hi if hi is not None else ""), loc, ok, list(st["trace"])))
-                st["events"].append(("slice", lo, hi if hi is not None else L, loc))
-            else:
-                self.obligations.append(Obligation("slice", "slice of %s with bounds that are not cursor forms" % self.len_of, loc, False, list(st["trace"])))
-            self.store(st, t["dest"], ('sliceof', lo, hi))
+                hi_ = hi if hi is not None else L0
+                if short.startswith("index"):
+                    ok = ctx.ge0(lo) and ctx.le(lo, hi_) and ctx.le(hi_, L0)
+                    self.oblige(st, "slice", "[%s..%s] is within a slice of length %s" % (lo, hi if hi is not None else "", L0), ok, t.get("sp"))
+                    st["events"].append(("slice", lo, hi_, loc))
+                    self.store(st, t["dest"], ('slice', hi_ - lo))
+                    return None
+                inb = [hi_ - lo, L0 - hi_]
+                alts = [(('some', ('slice', hi_ - lo)), inb, "%s get(%s..%s) is Some" % (where, lo, hi_)),
+                        (('none',), [lo - hi_ - 1], "%s get: start > end" % where),
+                        (('none',), [hi_ - L0 - 1], "%s get(%s..%s) is None" % (where, lo, hi_))]
+                return self.fork(st, t, visits, alts)
+            if short.startswith("index"):
+                self.oblige(st, "slice", "slice with bounds that are not linear forms", False, t.get("sp"))
+        if short in ("split_at", "split_at_mut") and len(args) == 2 and L0 is not None and isinstance(args[1], Lin):
+            k = args[1]
+            self.oblige(st, "split", "split_at(%s) of a slice of length %s" % (k, L0), ctx.ge0(k) and ctx.le(k, L0), t.get("sp"))
+            self.store(st, t["dest"], ('tuple', [('slice', k), ('slice', L0 - k)]))
             return None
         if name in self.inline and args and args[0] == ('self',):
             cb = self.facts.body(name, required=False)
@@ -624,20 +871,21 @@ class Interp:
                     env[i] = args[i - 1] if i - 1 < len(args) else self.opaque()
                 st["stack"].append({"body": st["body"], "env": st["env"], "dest": t["dest"], "target": t["target"], "visits": visits})
                 st["body"], st["env"] = cb, env
+                self.stats["inlined"] += 1
                 return 'inlined'
         # unknown callee: must not receive `self` mutably (it could move the cursors)
-        if any(a == ('self',) for a in args):
-            self.obligations.append(Obligation("escape", "self is passed to %s, which this analysis does not look into" % name, loc, False, list(st["trace"])))
-        self.store(st, t["dest"], self.new_sym(short or "r", ctx) if dty in UINT else self.opaque())
+        if self.cursors and any(a == ('self',) or (isinstance(a, tuple) and a[0] == 'fieldref' and a[1] in self.cursors) for a in args):
+            self.oblige(st, "escape", "self is passed to %s, which this analysis does not look into" % name, False, t.get("sp"))
+        self.store(st, t["dest"], self.fresh_for(dty, ctx, short or "r"))
         return None
 
     # -- region tracking -------------------------------------------------------------------------------
-    def copy_within(self, st, s, e, d, loc):
+    def copy_within(self, st, s, e, d, sp):
         ctx = st["ctx"]
         L = Lin.sym("len(%s)" % self.len_of)
         ok = ctx.le(s, e) and ctx.le(e, L) and ctx.ge0(d) and ctx.le(d + (e - s), L)
-        self.obligations.append(Obligation("copy", "copy_within(%s..%s -> %s) stays inside the buffer" % (s, e, d), loc, ok, list(st["trace"])))
-        st["events"].append(("copy", s, e, d, loc))
+        self.oblige(st, "copy", "copy_within(%s..%s -> %s) stays inside the buffer" % (s, e, d), ok, sp)
+        st["events"].append(("copy", s, e, d, st["body"].loc(sp)))
         moved = None
         for name, (a, b) in st["regions"].items():
             if ctx.eq(a, s) and ctx.eq(b, e):
@@ -650,10 +898,10 @@ class Interp:
                 continue        # empty region: nothing to clobber
             disjoint = ctx.le(new_end, a) or ctx.le(b, d)
             if not disjoint:
-                self.obligations.append(Obligation("clobber", "copy_within(%s..%s -> %s) may overwrite the live region %s = [%s, %s)" % (s, e, d, name, a, b), loc, False, list(st["trace"])))
+                self.oblige(st, "clobber", "copy_within(%s..%s -> %s) may overwrite the live region %s = [%s, %s)" % (s, e, d, name, a, b), False, sp)
         if moved is not None:
             st["regions"][moved] = (d, new_end)
-        else:
+        elif st["regions"]:
             # bytes copied that are not exactly one live region: harmless only if the range is empty
             if not ctx.eq(s, e):
-                self.obligations.append(Obligation("copy", "copy_within(%s..%s -> %s) moves bytes that are not exactly one live region" % (s, e, d), loc, False, list(st["trace"])))
+                self.oblige(st, "copy", "copy_within(%s..%s -> %s) moves bytes that are not exactly one live region" % (s, e, d), False, sp)
